@@ -56,6 +56,9 @@ def describe_rv(body, rv, depth=6):
         return describe(body, rv['op'], depth)
     if k in ('ref', 'rawptr'):
         pl = rv['pl']
+        if not pl['p'] and not (1 <= pl['l'] <= body.arg_count) and body.single_def(pl['l']) is not None \
+                and body.local_name(pl['l']) is None:
+            return '&' + describe(body, {'k': 'copy', 'pl': pl}, depth - 1)
         if pl['p'] and pl['p'][0][0] == 'deref' and len(pl['p']) == 1:
             d = body.single_def(pl['l'])
             if d and d[0] == 'stmt' and d[3]['rv']['k'] == 'use' and is_const(d[3]['rv']['op']):
@@ -259,7 +262,12 @@ def explore(body, tracked=None, summaries=None, max_states=20000, on_call=None):
             for v, b in targets:
                 lab = labels.get(v, v)
                 stack.append((b, env, decisions + ((bb, desc, lab),), blocks, calls, ret))
-            stack.append((t['otherwise'], env, decisions + ((bb, desc, 'otherwise'),), blocks, calls, ret))
+            olab = 'otherwise'
+            if labels:
+                rest = [n for v, n in labels.items() if v not in listed]
+                if len(rest) == 1:
+                    olab = rest[0]
+            stack.append((t['otherwise'], env, decisions + ((bb, desc, olab),), blocks, calls, ret))
             continue
         # other terminators: follow successors
         for s in body.succ(bb):
